@@ -32,15 +32,20 @@ Section Spec.
       v_truthy C c = true /\ v_intlike C c = true /\ v_nonneg C c = true /\
       forallb (v_nonneg C) r1 = true.
 
-  (* archive entries that np.savez can store under their own names *)
-  Definition entries_ok (es : list (string * arr V)) : Prop :=
-    ~ In savez_positional_name (map fst es) /\ ~ In savez_keyword_name (map fst es).
+  (* archive entries that np.savez can store under their own names: none is
+     called like a parameter of np.savez itself (boolean test) *)
+  Definition entries_okb (es : list (string * arr V)) : bool :=
+    negb (str_mem savez_positional_name (map fst es)) &&
+    negb (str_mem savez_keyword_name (map fst es)).
+  Definition entries_ok (es : list (string * arr V)) : Prop := entries_okb es = true.
 
-  Definition key_ok (key : option string) : Prop :=
+  (* a key= argument of save that np.savez can store (boolean test) *)
+  Definition key_okb (key : option string) : bool :=
     match key with
-    | Some k => k <> savez_positional_name /\ k <> savez_keyword_name
-    | None => True
+    | Some k => negb (String.eqb k savez_positional_name) && negb (String.eqb k savez_keyword_name)
+    | None => true
     end.
+  Definition key_ok (key : option string) : Prop := key_okb key = true.
 
   (* the entries the archive branch of save starts from *)
   Definition npz_base (fs : fsys V) (p : string) (overwrite : bool) : list (string * arr V) :=
